@@ -761,11 +761,16 @@ fn g_report(rng: &mut Rng) -> Value {
         7 => json!({"t": "size", "v": [g_num(rng), g_num(rng), g_num(rng), g_num(rng)]}),
         8 => json!({"t": "decmode", "mode": *rng.pick(&DECMODES), "status": rng.below(5)}),
         9 => {
-            let mut set = BTreeSet::new();
-            for _ in 0..1 + rng.below(6) {
-                set.insert(1 + if rng.chance(1, 2) { rng.below(70) } else { g_num(rng) % 4294967295 });
+            // as terminals send it: class first, any order, repetitions possible
+            let mut attrs: Vec<u64> = vec![*rng.pick(&[1u64, 6, 61, 62, 63, 64, 65])];
+            for _ in 0..rng.below(7) {
+                attrs.push(1 + if rng.chance(2, 3) { rng.below(30) } else { g_num(rng) % 4294967295 });
             }
-            json!({"t": "da", "attrs": set.into_iter().collect::<Vec<_>>()})
+            if rng.chance(1, 4) {
+                let d = attrs[0];
+                attrs.push(d);
+            }
+            json!({"t": "da", "attrs": attrs})
         }
         10 => {
             let err = if rng.chance(1, 2) {
